@@ -7,7 +7,7 @@ import vlib
 THEOREMS = {"Properties.C07": [
     "C07_prefilter_sound", "C07_cauchy_schwarz", "C07_entry_valid", "C07_hit_valid", "C07_scope",
     "C07_k_monotone_partial", "C07_no_store_after_invalidate", "C07_hit_same_or_similar",
-    "C07_saturation_refuted", "qcache_len_bound", "qcache_cap0_unbounded",
+    "C07_old_quantisation_saturates", "qcache_len_bound", "qcache_cap0_unbounded",
     "C07_oracle_premises_satisfiable", "C07_entry_valid_ip", "C07_engine_nonvacuous",
     "C07_interleaving_nonvacuous", "C07_prefilter_nonvacuous"]}
 
@@ -61,12 +61,12 @@ def _eval_shards(ctx, out, summ):
 def run(ctx):
     n = 500 if ctx.tier == "quick" else 5000
     ctx.trusted += [
-        "named assumption (Model/QCache.v): the 64-bit SipHash of hash_embedding is injective on (len, quantised i16 list) — no 64-bit collision; the model key is the quantised list",
+        "named assumption (Model/QCache.v): the 64-bit SipHash of hash_embedding is injective on (len, list of hashed u32 patterns) — no 64-bit collision; the model key is the list of the VALUES whose bit patterns are hashed (round(32768 v) when finite in f32, else v); NaN/infinite query components are not modelled",
         "float gap: the model and the theorems are over exact rationals with every sqrt comparison squared (SQ comments in Model/QCache.v); the code computes norms, sqrt, the division and the running sums in f32. Correspondence inputs are on dyadic grids where all sums are exact and pools whose decisions would hinge on a sqrt/division rounding are regenerated (counted); the prefilter's rounding gap at the bound is MEASURED by the near-boundary stream against exact rationals (tolerance 1e-6*max(1,|w|)), not proved",
         "hooks H5 (cfg kyrodb_verif): verif_hash_embedding, verif_insert_can_affect_cached_boundary (recomputes the embedding stats exactly as invalidate_for_insert does)",
         "oracle premises of C07_entry_valid/C07_hit_valid (O_live, O_len, O_omit; shown satisfiable by an executable exact k-NN in C07_oracle_premises_satisfiable): the uncached hot+cold search is an exact k-NN reporting the current distance of live documents (HNSW recall is C06/C16 territory; tiny collections in the engine stream make it exhaustive); QueryHashCache::distance and the index report the same distance for the same pair",
         "engine model: vectors already normalised (cosine/inner product normalisation is idempotent — C02's hypothesis); statistics, cached_at and non-finite floats are not modelled; each cache method is one atomic step (state RwLock) and an invalidation is 'bump generation, then remove under the lock'",
-        "engine-level stream E uses the Euclidean metric and similarity threshold 1.0 so that a hit is always the entry of the identical query (a similarity hit serves another query's list by design, see C07_hit_same_or_similar)",
+        "engine-level stream E uses the Euclidean metric and similarity threshold 1.0 so that a hit is always the entry of the identical query (a similarity hit serves another query's list by design, see C07_hit_same_or_similar); components range up to 7 (outside the unit box)",
     ]
     proofs_ok = ctx.proof_phase(["Properties/C07.vo"], THEOREMS, pins=PINS)
 
@@ -97,7 +97,7 @@ def run(ctx):
     ctx.cov.update({
         "evaluations": A.get("cases", 0) + r["B"]["grid"]["n"] + near["n"] + E.get("histories", 0) + r["H_n"],
         "distinct_nontrivial": A.get("nontrivial", 0) + E.get("histories_with_hit_after_write", 0),
-        "rule": "A: seeded op sequences on the public QueryHashCache (get_scoped, insert_with_k_scoped, insert_with_k_scoped_if_generation with current/stale generation, invalidate_doc, invalidate_for_insert x 3 metrics, clear, len, invalidation_generation) over dyadic-grid vectors (k/16, dims 1-8 and 33-40 to cross the 32-dim prefix, plus same-cell off-grid queries and vectors of another dimension), 1-3 scopes, capacities {1,2,4,12}, thresholds {1.0,0.9,0.5,0.0}, scan limit {2000,10}; every observation compared exactly with Model/QCache.v inside coqc. B: prefilter differential through the hook (grid rows must agree exactly; near-boundary rows measured). H: hash-key equality vs the quantised key. E: engine histories with SearchExecutionPath::CacheHit checked against a fresh uncached search. A case is non-trivial when it is distinct and contains a cache hit after an intervening invalidation/write",
+        "rule": "A: seeded op sequences on the public QueryHashCache (get_scoped, insert_with_k_scoped, insert_with_k_scoped_if_generation with current/stale generation, invalidate_doc, invalidate_for_insert x 3 metrics, clear, len, invalidation_generation) over dyadic-grid vectors (k/16 and 8k/16, i.e. inside and well outside the unit box, dims 1-8 and 33-40 to cross the 32-dim prefix, plus same-cell off-grid queries, large-component queries built from {5,3,2,7,-4,1e6,-1e6,100.5,32767,40000} incl. the old witness pair [5,3]/[2,7], and vectors of another dimension), 1-3 scopes, capacities {1,2,4,12}, thresholds {1.0,0.9,0.5,0.0}, scan limit {2000,10}; every observation compared exactly with Model/QCache.v inside coqc. B: prefilter differential through the hook (grid rows must agree exactly; near-boundary rows measured). H: hash-key equality vs the quantised key. E: engine histories with SearchExecutionPath::CacheHit checked against a fresh uncached search. A case is non-trivial when it is distinct and contains a cache hit after an intervening invalidation/write",
         "samples": (A.get("samples") or [])[:1] + ([E.get("sample")] if E.get("sample") else []),
         "histogram": {"cache_ops": A.get("histogram"), "prefilter": B.get("histogram"),
                       "engine": {k: E.get(k) for k in ("histories", "searches", "cache_hits", "cache_hits_after_intervening_write", "reference_live_set_mismatch")},
@@ -118,29 +118,23 @@ def run(ctx):
         "oracle_failures": len(A.get("oracle_failures", [])) + len(E.get("oracle_failures", [])),
     })
 
-    # --- the saturation probe: reported through the known-findings mechanism only
+    # --- directed regression probe for the repaired defect (class C07-quantised-key-saturation):
+    #     expected outcome is a MISS; a hit is a violation (no known-findings lookup any more)
+    probe_fail = None
     if P:
+        el = P.get("engine_level") or {}
         if P.get("hit"):
-            f = ctx.classify_known(KNOWN_SAT)
-            detail = "get_scoped(0,[2,7],1) after insert_with_k_scoped(0,[5,3],..) is served the other query's list (cosine 0.73, threshold 1.0): the quantised i16 key saturates outside the unit box"
-            if f:
-                ctx.known_hit(f, detail)
-            else:
-                ctx.notes.append("saturation probe [%s] reproduced on the implementation (no known_findings entry yet): %s; replay: %s" % (KNOWN_SAT, detail, P.get("what")))
-            el = P.get("engine_level") or {}
-            if el.get("oracle"):
-                msg = "engine-level form (Euclidean TieredEngine: insert 1:[5,3], 2:[2,7]; search [5,3] k=1; search [2,7] k=1): " + str(el.get("oracle"))
-                if f:
-                    ctx.known_hits[f["id"]] += " | " + msg
-                else:
-                    ctx.notes.append("saturation probe [%s] " % KNOWN_SAT + msg)
-        else:
-            ctx.notes.append("saturation probe no longer hits on the implementation (C07_saturation_refuted still holds for the model)")
-        if r["P_bad"]:
-            ctx.notes.append("saturation probe: model and implementation disagree")
+            probe_fail = {"property": "C07", "kind": "oracle", "stream": "A", "class": KNOWN_SAT,
+                          "why": "get_scoped(0,[2,7],1) after insert_with_k_scoped(0,[5,3],..) is served the other query's list (cosine 0.73, threshold 1.0): the quantised cache key collides outside the unit box again",
+                          "case": P.get("case"), "replay_cmd": "./check C07 --replay <this file>"}
+        elif el.get("oracle"):
+            probe_fail = {"property": "C07", "kind": "oracle", "stream": "E", "class": KNOWN_SAT,
+                          "why": str(el.get("oracle")), "case": el.get("history"), "trace": el.get("trace"),
+                          "replay_cmd": "./check C07 --replay <this file>"}
+        ctx.cov["regression_probe_saturation"] = "miss (expected)" if not probe_fail else "HIT"
 
     # --- decide: genuine failing inputs first
-    fails = []
+    fails = [probe_fail] if probe_fail else []
     for f in A.get("oracle_failures", []):
         fails.append({"property": "C07", "kind": "oracle", "stream": "A", "why": f["why"], "case": f["case"],
                       "replay_cmd": "./check C07 --replay <this file>"})
